@@ -43,6 +43,11 @@ SAFE_DECOR = ['', '', ' ', 'ü', ' é ', '+', 'ß x', '-', '_']
 TAGS = ['runtime', 'devel', 'man', 'doc', 'mine', 'tägged', 'i18n', 'bin-devel']
 
 
+KILLER = 'c11-killer.sh'
+KILLER_SH = ('#!/bin/sh\n# runs last; the parent is the `meson install` process (run_exe -> Popen)\n'
+             'if [ -n "$C11_KILL_PARENT" ]; then kill -KILL $PPID; sleep 0.2; fi\nexit 0\n')
+
+
 def perms_bits(s: str) -> int:
     """'rwxr-x---' -> 0o750 (no setuid/sticky letters are generated)."""
     bits = 0
@@ -801,13 +806,20 @@ def gen_project(seed: T.Any, kind: str, n_rules: T.Optional[int] = None) -> dict
         g.files['subprojects/sp/meson.build'] = {
             'content': f"project({q(g.sp_projname)}, meson_version: '>=1.3.0')\n" + '\n'.join(blocks['sp']) + '\n', 'mode': 0o644}
         g.features.add('layout:subproject')
+    # fault-injection helper (drawn last so that it does not disturb the rest of the project): an install script that
+    # SIGKILLs the installing process when the harness asks for it, and does nothing otherwise
+    has_killer = r.random() < 0.5
+    if has_killer:
+        g.files[KILLER] = {'content': KILLER_SH, 'mode': 0o755}
+        body.append(f'meson.add_install_script({q(KILLER)})')
+        g.features.add('install_script:killer')
     g.files['meson.build'] = {'content': '\n'.join(root + body) + '\n', 'mode': 0o644}
     tags = sorted({e['tag'] for e in g.entries if e['tag'] not in (None, '?')})
     return {
         'seed': str(seed), 'kind': kind, 'backend': 'none' if kind == 'data' else 'ninja',
         'project_name': g.projname, 'options': g.opts, 'files': g.files, 'dirs': g.dirs, 'rules': g.rules,
         'entries': g.entries, 'features': sorted(g.features), 'tags': tags,
-        'has_subproject': bool(blocks['sp']), 'needs_build': kind != 'data',
+        'has_subproject': bool(blocks['sp']), 'needs_build': kind != 'data', 'has_killer': has_killer,
     }
 
 
